@@ -138,6 +138,7 @@ def build_unit(unit, workdir):
     res['verus'] = r1
     res['canary'] = r2
     analyse(res, gen, r1)
+    strip_failed_hints(res, gen, unit, workdir)
     analyse_canary(res, gen_c, r2)
     if res['status'] == 'vacuous':
         # a canary that seems to verify is far more often a lost diagnostic than a contradiction: confirm it
@@ -148,6 +149,46 @@ def build_unit(unit, workdir):
         res.pop('reason', None)
         analyse_canary(res, gen_c, r2)
     return res
+
+
+def strip_failed_hints(res, gen, unit, workdir):
+    """Verus *assumes* an assertion after reporting it, so a failing ghost hint block (scaffolding of the proof, not an
+    obligation derived from a property) can hide the failure of the contract clauses that come after it.  Re-verify
+    with the failing hint blocks blanked out (line numbers kept) until no hint fails: what fails then are contract
+    clauses, loop invariants and safety obligations, each tagged with the properties it carries.  A hint that turns
+    out not to be needed is dropped from the failures; one that cannot be removed (it declares ghost state used
+    elsewhere) stays and is decided like any other failed obligation."""
+    if res['status'] != 'ok':
+        return
+    text_lines = gen['text'].split('\n')
+    removed = []
+    for rnd in range(4):
+        hints = [e for e in res['failures'] if e.get('clause_kind') == 'hint' and not e.get('hint_status')]
+        if not hints:
+            break
+        cids = {(e.get('clause_owner') or e.get('fn'), e['clause']) for e in hints}
+        for c in gen['linemap']:
+            if c[4] == 'hint' and (c[2], c[3]) in cids:
+                for ln in range(c[0], (c[1] or c[0]) + 1):
+                    if 1 <= ln <= len(text_lines) and not text_lines[ln - 1].lstrip().startswith('//'):
+                        text_lines[ln - 1] = ''
+                removed.append(c[3])
+        alt_rs = os.path.join(workdir, unit + '_nohint%d.rs' % rnd)
+        open(alt_rs, 'w').write('\n'.join(text_lines))
+        r = run_verus(alt_rs, workdir, 'nohint%d' % rnd, UNITS[unit].get('verus_args', []))
+        res2 = {'unit': unit, 'status': 'ok', 'failures': [], 'limits': []}
+        analyse(res2, gen, r)
+        if res2['status'] != 'ok':
+            for e in hints:
+                e['hint_status'] = 'unremovable'
+            break
+        for e in hints:
+            e['hint_status'] = 'removed'
+        # the verdict without the hint replaces the one that was conditional on it
+        res['failures'] = [e for e in res['failures'] if e.get('hint_status')] + res2['failures']
+        res['limits'] = res2['limits']
+        res['errors'] = res2.get('errors', res.get('errors'))
+    res['hints_removed'] = removed
 
 
 def locate(gen, line):
@@ -209,6 +250,7 @@ def analyse(res, gen, r):
             entry['src_line'] = fn.get('src_line')
         if clause:
             entry['clause'] = clause[3]
+            entry['clause_owner'] = clause[2]
             entry['clause_kind'] = clause[4]
         tags = []
         if clause and clause[5]:
